@@ -17,9 +17,11 @@
 
     state := NAME=s<hex> | NAME=a<n>(:<hex>)* | NAME=U | !NAME=… (read-only) | nu=<0|1> | st=<n>
            | pos=<n>(:<hex>)* | fl=<short option names> | pid=<n> ($$) | bg=<n> ($!, 0 = none)
+           | pw=<hex name>:<hex dir>(,<hex name>:<hex dir>)* (user database: home directories)
              (IFS starts as " \t\n"; `IFS=U` unsets it)
     word  := unit*
     unit  := L<hex> | B<hex> | S<hex> | Q<hex> ($'…', unquoted content) | D[ tunit* ] | tunit
+           | T<hex name> (tilde prefix `~name`, not followed by a slash) | T/<hex name> (followed by a slash)
     tunit := L<hex> | B<hex> | $<param> | {<param> modifier }
     modifier := ε | len | sw[:](-|=|?|+) unit* | tr(#|##|%|%%) unit*
     param := name | @ | * | # | ? | - | $ | ! | 0 | <digits> (positional, `00` = index 0)
@@ -67,19 +69,14 @@ def mkWord : List WordUnit → Word
 
 def parseSwitch (t : String) : Option (SwCond × SwAction) :=
   let (cond, rest) := if t.startsWith ":" then (SwCond.unsetOrEmpty, (t.drop 1).toString) else (SwCond.unset, t)
-  match rest with
-  | "-" => some (cond, .default)
-  | "=" => some (cond, .assign)
-  | "?" => some (cond, .error)
-  | "+" => some (cond, .alter)
+  match rest.toList with
+  | [c] => (swActionOfSymbol c).map (fun a => (cond, a))
   | _ => none
 
 def parseTrim (t : String) : Option (TrimSide × TrimLen) :=
-  match t with
-  | "#" => some (.prefix, .shortest)
-  | "##" => some (.prefix, .longest)
-  | "%" => some (.suffix, .shortest)
-  | "%%" => some (.suffix, .longest)
+  match t.toList with
+  | [c] => (trimSideOfSymbol c).map (fun sd => (sd, .shortest))
+  | [c, d] => if c = d then (trimSideOfSymbol c).map (fun sd => (sd, .longest)) else none
   | _ => none
 
 mutual
@@ -104,6 +101,14 @@ mutual
         let s ← decChars (tok.drop 1).toString
         let (us, rest) ← parseUnits rest
         some (.dsq s :: us, rest)
+      else if tok.startsWith "T/" then do
+        let s ← decChars (tok.drop 2).toString
+        let (us, rest) ← parseUnits rest
+        some (.tilde s true :: us, rest)
+      else if tok.startsWith "T" then do
+        let s ← decChars (tok.drop 1).toString
+        let (us, rest) ← parseUnits rest
+        some (.tilde s false :: us, rest)
       else do
         let (u, rest) ← parseTUnit tok rest
         let (us, rest) ← parseUnits rest
@@ -206,6 +211,11 @@ def applyState (st : Env × ReadOpts) (tok : String) : Option (Env × ReadOpts) 
     else if k = "fl" then some ({ env with flags := v.toList }, ro)
     else if k = "pid" then v.toNat?.map (fun n => ({ env with mainPid := n }, ro))
     else if k = "bg" then v.toNat?.map (fun n => ({ env with lastAsync := n }, ro))
+    else if k = "pw" then
+      ((v.splitOn ",").mapM fun (e : String) =>
+        match e.splitOn ":" with
+        | [n, d] => do some ((← decChars n), (← decChars d))
+        | _ => none).map (fun l => ({ env with homes := l }, ro))
     else if k = "pos" then
       match v.splitOn ":" with
       | n :: vs => if n.toNat? = some vs.length then (vs.mapM decChars).map (fun l => ({ env with pos := l }, ro)) else none
